@@ -22,6 +22,32 @@ type Control struct {
 	Rule     string // rule expected to fire
 	Contains string // substring of the construct expected in the finding
 	Negative bool   // the mutant preserves the property: the rule must stay silent
+	Nth      int    // replace the Nth occurrence of Find (1-based); 0 = Find must occur exactly once
+}
+
+// applyControl returns the mutated file content, or "" when the control does not apply.
+func applyControl(c *Control, src string) string {
+	n := strings.Count(src, c.Find)
+	if c.Nth == 0 {
+		if n != 1 {
+			return ""
+		}
+		return strings.Replace(src, c.Find, c.Replace, 1)
+	}
+	if n < c.Nth {
+		return ""
+	}
+	idx := -1
+	from := 0
+	for i := 0; i < c.Nth; i++ {
+		j := strings.Index(src[from:], c.Find)
+		if j < 0 {
+			return ""
+		}
+		idx = from + j
+		from = idx + len(c.Find)
+	}
+	return src[:idx] + c.Replace + src[idx+len(c.Find):]
 }
 
 var controls []Control
@@ -42,11 +68,14 @@ func runControlChild(repo, prop, name string) {
 	}
 	path := filepath.Join(repo, ctl.File)
 	b, err := os.ReadFile(path)
-	if err != nil || strings.Count(string(b), ctl.Find) != 1 {
+	mut := ""
+	if err == nil {
+		mut = applyControl(ctl, string(b))
+	}
+	if mut == "" {
 		fmt.Println(`{"status":"not-applicable"}`)
 		return
 	}
-	mut := strings.Replace(string(b), ctl.Find, ctl.Replace, 1)
 	p, err := Load(repo, map[string][]byte{path: []byte(mut)})
 	if err != nil {
 		out, _ := json.Marshal(map[string]interface{}{"status": "load-error", "error": err.Error()})
